@@ -103,8 +103,8 @@ def register(R):
     s = R.spec(B + "add_energy")
     s.requires("wf", bev_wf).requires("time", lambda a: And(a.time_seconds >= 0, a.charger.rate >= 0))
     s.ensures("energy_accounted", add_like(ELEC, lambda a: a.self.battery_capacity_kwh,
-              lambda a, d: Implies(a.charger.energy_type == ELEC, d * 3600 <= a.charger.rate * a.time_seconds)), P)
-    s.ensures("wrong_plug_noop", lambda a, r: Implies(a.charger.energy_type != ELEC, r[0] == a.vehicle), P).no_raise(P)
+              lambda a, d: Implies(a.charger.energy_type == ELEC, d * 3600 <= a.charger.rate * a.time_seconds)), P + ("C05",))
+    s.ensures("wrong_plug_noop", lambda a, r: Implies(a.charger.energy_type != ELEC, r[0] == a.vehicle), P + ("C05",)).no_raise(P)
 
     s = R.spec(B + "is_empty")
     s.requires("wf", bev_wf)
@@ -136,8 +136,8 @@ def register(R):
     s = R.spec(I + "add_energy")
     s.requires("wf", ice_wf).requires("time", lambda a: And(a.time_seconds >= 0, a.charger.rate >= 0))
     s.ensures("energy_accounted", add_like(GAS, lambda a: a.self.tank_capacity_gallons,
-              lambda a, d: Implies(a.charger.energy_type == GAS, d <= a.charger.rate * a.time_seconds)), P)
-    s.ensures("wrong_plug_noop", lambda a, r: Implies(a.charger.energy_type != GAS, r[0] == a.vehicle), P).no_raise(P)
+              lambda a, d: Implies(a.charger.energy_type == GAS, d <= a.charger.rate * a.time_seconds)), P + ("C05",))
+    s.ensures("wrong_plug_noop", lambda a, r: Implies(a.charger.energy_type != GAS, r[0] == a.vehicle), P + ("C05",)).no_raise(P)
 
     s = R.spec(I + "is_empty")
     s.requires("wf", ice_wf)
